@@ -219,49 +219,96 @@ def _guard_shape(prog, eff, chk, A5):
         else:
             chk.violation(A5, 'sqlite_transaction|ctor', locstr(f.node),
                           'constructor statements are %s, expected exactly BEGIN' % [k for _, k, _ in ks])
-    # destructor: if (!committed_) { ROLLBACK }
-    f = dtor[0]
-    ok = False
-    for n in walk(f.body):
-        if n.get('kind') == 'IfStmt':
-            c = children(n)
-            cond = strip(c[0])
-            neg = cond.get('kind') == 'UnaryOperator' and cond.get('opcode') == '!'
-            names = [x.get('name') for x in walk(cond) if x.get('kind') == 'MemberExpr']
-            inner_sites = [s for s in eff.sites(f) if any(y is s.node for y in walk(c[1]))]
-            outer_sites = [s for s in eff.sites(f) if s not in inner_sites]
-            if neg and names == ['committed_'] and not n.get('hasElse') and not outer_sites and \
-                    [role(s.stored_in) for s in inner_sites] in (['rollback'], ['rollback-to', 'commit']):
-                ok = True
-    if ok:
-        chk.ok(A5, 'destructor issues ROLLBACK iff !committed_', locstr(f.node))
-    else:
-        chk.violation(A5, 'sqlite_transaction|dtor', locstr(f.node),
-                      'destructor is not of the form if (!committed_) { ROLLBACK }')
-    # commit: COMMIT then committed_ = true
-    f = commit[0]
-    seq = []
-    for st in children(f.body):
-        s = [x for x in eff.sites(f) if any(y is x.node for y in walk(st))]
-        if s:
-            seq.append(('stmt', role(s[0].stored_in)))
-            continue
-        for x in walk(st):
+    # the flag: the bool member of the guard (whatever its name)
+    r = prog.records.get(TXN)
+    flags = [x for x in (r.fields if r else []) if (x.get('type') or '').strip() in ('bool', 'const bool')]
+    if len(flags) != 1:
+        chk.unknown(A5, 'sqlite_transaction', 'expected exactly one bool member as committed flag, found %d' % len(flags))
+        return
+    flag = flags[0].get('name')
+
+    class Unknown(Exception):
+        pass
+
+    def cond_value(cond, val):
+        c = strip(cond, explicit=True)
+        if c.get('kind') == 'UnaryOperator' and c.get('opcode') == '!':
+            return not cond_value(children(c)[0], val)
+        if c.get('kind') == 'MemberExpr' and c.get('name') == flag:
+            return val
+        if c.get('kind') == 'BinaryOperator' and c.get('opcode') in ('==', '!='):
+            a_, b_ = children(c)
+            lv = program.literal_value(b_)
+            if strip(a_, explicit=True).get('name') == flag and isinstance(lv, bool):
+                return (val == lv) if c['opcode'] == '==' else (val != lv)
+        raise Unknown('condition %s' % locstr(cond))
+
+    def events(f, node, val, out):
+        """-> False when the path has returned."""
+        k = node.get('kind')
+        if k == 'CompoundStmt':
+            for st in children(node):
+                if not events(f, st, val, out):
+                    return False
+            return True
+        if k == 'IfStmt':
+            c = children(node)
+            v = cond_value(c[0], val[0])
+            if v:
+                return events(f, c[1], val, out)
+            if node.get('hasElse'):
+                return events(f, c[2], val, out)
+            return True
+        if k == 'CXXTryStmt':
+            return events(f, children(node)[0], val, out)
+        if k == 'ReturnStmt':
+            return False
+        if k in ('NullStmt',):
+            return True
+        ss = [x for x in eff.sites(f) if any(y is x.node for y in walk(node))]
+        for x in ss:
+            out.append(('stmt', role(x.stored_in)))
+        for x in walk(node):
             if x.get('kind') == 'BinaryOperator' and x.get('opcode') == '=':
                 l = strip(children(x)[0])
-                r = program.literal_value(children(x)[1])
-                if l.get('kind') == 'MemberExpr':
-                    seq.append(('assign', l.get('name'), r))
-    if seq == [('stmt', 'commit'), ('assign', 'committed_', True)]:
-        chk.ok(A5, 'commit() issues COMMIT, then sets committed_', locstr(f.node))
+                if l.get('kind') == 'MemberExpr' and l.get('name') == flag:
+                    v = program.literal_value(children(x)[1])
+                    out.append(('assign', v))
+                    if isinstance(v, bool):
+                        val[0] = v
+        if any(x.get('kind') in ('IfStmt', 'ForStmt', 'WhileStmt', 'SwitchStmt') for x in walk(node)) and not ss:
+            raise Unknown('statement %s' % locstr(node))
+        return True
+    try:
+        f = dtor[0]
+        for v0, want in ((False, (['rollback'], ['rollback-to', 'commit'])), (True, ([],))):
+            out = []
+            events(f, f.body, [v0], out)
+            got = [x[1] for x in out if x[0] == 'stmt']
+            inst = 'destructor with %s = %s issues %s' % (flag, str(v0).lower(), got or 'nothing')
+            if got in list(want):
+                chk.ok(A5, inst, locstr(f.node))
+            else:
+                chk.violation(A5, 'sqlite_transaction|dtor', locstr(f.node),
+                              inst + ', expected %s: %s' % (' or '.join(map(str, want)),
+                                                            'an uncommitted transaction is not rolled back (or, for the '
+                                                            'savepoint form, never released: every later write stays '
+                                                            'uncommitted)' if not v0 else 'a committed transaction is touched again'))
+        f = commit[0]
+        out = []
+        events(f, f.body, [False], out)
+        inst = 'commit() performs %s' % out
+        if out == [('stmt', 'commit'), ('assign', True)]:
+            chk.ok(A5, 'commit() issues COMMIT / RELEASE and only then sets %s' % flag, locstr(f.node))
+        else:
+            chk.violation(A5, 'sqlite_transaction|commit', locstr(f.node),
+                          inst + ', expected the commit statement followed by %s = true: if the flag is set first and '
+                          'the statement fails, the destructor does not roll back' % flag)
+    except Unknown as e:
+        chk.unknown(A5, 'sqlite_transaction', 'guard implementation outside the modelled subset: %s' % e)
+        return
+    if program.literal_value(flags[0]) is False:
+        chk.ok(A5, '%s starts false' % flag, locstr(flags[0]))
     else:
-        chk.violation(A5, 'sqlite_transaction|commit', locstr(f.node),
-                      'commit() is %s, expected COMMIT followed by committed_ = true' % seq)
-    # default member initialiser committed_ = false
-    r = prog.records.get(TXN)
-    fld = [x for x in (r.fields if r else []) if x.get('name') == 'committed_']
-    if fld and program.literal_value(fld[0]) is False:
-        chk.ok(A5, 'committed_ starts false', locstr(fld[0]))
-    else:
-        chk.violation(A5, 'sqlite_transaction|committed_ init', locstr(r.node) if r else '?',
-                      'committed_ has no default member initialiser false')
+        chk.violation(A5, 'sqlite_transaction|flag init', locstr(flags[0]),
+                      '%s has no default member initialiser false' % flag)
